@@ -932,6 +932,11 @@ func TestVerifC06(t *testing.T) {
 			return // the stuck goroutine still owns the log level and the websocket rig: stop this shard
 		}
 		rec.Seen("role_family", it.role+"/"+it.family)
+		if rec.InconclusiveCount() >= 6 {
+			// every further watchdog costs a minute: enough has been seen in this shard
+			rec.Note("shard stopped early after 6 inconclusive (watchdog) cases", map[string]interface{}{"at_item": idx})
+			return
+		}
 	}
 }
 
